@@ -201,6 +201,12 @@ class Builder:
         for k, rec in m.items():
             o = cls.__new__(cls)
             for n, v in rec.items():
+                if n.endswith('?'):
+                    continue  # is-None companion column of an optional field
+                if rec.get(n + '?') is True:
+                    v = None
+                elif isinstance(v, int) and isinstance(getattr(self.reg.models[ft.elem].fields.get(n), 't', self.reg.models[ft.elem].fields.get(n)), C.Opaque):
+                    v = f'opaque#{v}'
                 if isinstance(v, bool) and isinstance(getattr(self.reg.models[ft.elem].fields.get(n), '__class__', None), type) and _is_event_field(self.reg.models[ft.elem].fields.get(n)):
                     ev = asyncio.Event()
                     if v:
